@@ -1,8 +1,8 @@
 package main
 
 import (
-	"reflect"
 	"fmt"
+	"reflect"
 	"strings"
 
 	"github.com/mfcochauxlaberge/jsonapi"
@@ -20,7 +20,7 @@ func aliasObs(rs []aliasRes) string {
 	items := make([]string, len(rs))
 	for i, ar := range rs {
 		t := ar.res.GetType()
-		fields := t.Fields()
+		fields := fieldsIndep(t) // (the names in the type's maps, read directly)
 		vals := []string{}
 		for _, k := range ar.keys {
 			if inList(fields, k) {
@@ -78,7 +78,7 @@ func suiteAlias(r *Rng, n int, thorough bool, o *Out) {
 		rs := []aliasRes{{res, keys}}
 		vs := make([]string, len(keys))
 		for i, k := range keys {
-			vs[i] = lst(hx(k), sxVal(res.Get(k)))
+			vs[i] = lst(hx(k), sxVal(vals[k])) // what was written (not what Get says was)
 		}
 		o.emit(lst("alias", "new", b01(wrapped), sxType(typ), lst(vs...)), aliasObs(rs), "ok")
 		for h := 2 + r.IntN(8); h > 0; h-- {
@@ -93,7 +93,7 @@ func suiteAlias(r *Rng, n int, thorough bool, o *Out) {
 			panicked := false
 			msg := ""
 			tt := target.res.GetType()
-			fields := tt.Fields()
+			fields := fieldsIndep(tt)
 			pick := func(pred func(k string) bool) string {
 				var c []string
 				for _, k := range target.keys {
@@ -217,6 +217,12 @@ func suiteAlias(r *Rng, n int, thorough bool, o *Out) {
 					nt := nw.res.GetType()
 					if nt.Name != tt.Name || strings.Join(nt.Fields(), ",") != strings.Join(fields, ",") || nw.res.Get("id") != "" {
 						pv = "FAIL:New does not return a zero-valued resource of the same type"
+					}
+					// zero-valued: every field reads the zero of its kind (the harness's own)
+					for _, f := range fields {
+						if got, want := canonSx(nw.res.Get(f)), canonSx(zeroFieldIndep(tt, f)); got != want && pv == "ok" {
+							pv = fmt.Sprintf("FAIL:New: field %s of the new resource reads %s, not its zero value %s", f, got, want)
+						}
 					}
 				}
 			}
